@@ -92,47 +92,56 @@ def coq_make(targets, timeout=1500):
         return r.returncode == 0, r.stdout
 
 
+def property_files(pid):
+    """Properties_<pid>.v and its companions Properties_<pid>_<part>.v (world-level statements kept in files of
+    their own so that the short names of the pure models and of the world model do not mix)"""
+    import glob
+    fs = [os.path.join(COQ, "Properties_%s.v" % pid)] + sorted(glob.glob(os.path.join(COQ, "Properties_%s_*.v" % pid)))
+    return [os.path.basename(f) for f in fs if os.path.exists(f)]
+
+
 def check_properties(pid, timeout=900):
-    """Compile Properties_<pid>.v afresh and parse theorems / assumptions.
+    """Compile the property files of <pid> afresh and parse theorems / assumptions.
     Returns dict(obligations, discharged, theorems=[(name, status)], ok, output)."""
-    fn = "Properties_%s.v" % pid
-    src = open(os.path.join(COQ, fn)).read()
-    theorems = re.findall(r"^\s*Theorem\s+(\w+)", src, re.M)
-    ok_deps, out = coq_make([fn[:-2] + ".vo"])
-    res = {"obligations": len(theorems), "discharged": 0, "theorems": [], "ok": False, "output": out}
-    if not ok_deps:
-        # which theorem / lemma broke: report coqc's message
-        res["theorems"] = [(t, "not-checked") for t in theorems]
-        m = re.findall(r'File "([^"]+)", line (\d+).*?\n(Error.*?)(?:\n\S|\Z)', out, re.S)
-        res["error"] = out[-3000:]
-        return res
-    # recompile the property file itself to capture Print Assumptions
-    with Lock("coq"):
-        r = run(["timeout", str(timeout), "coqc", "-Q", ".", "K", fn], cwd=COQ)
-    res["output"] = r.stdout
-    if r.returncode != 0:
-        res["theorems"] = [(t, "not-checked") for t in theorems]
-        res["error"] = r.stdout[-3000:]
-        return res
-    # Print Assumptions blocks appear in order, one per theorem
-    blocks = re.split(r"(?=Closed under the global context|Axioms:)", r.stdout)
-    blocks = [b for b in blocks if b.startswith("Closed under") or b.startswith("Axioms:")]
+    res = {"obligations": 0, "discharged": 0, "theorems": [], "ok": False, "output": "", "files": property_files(pid)}
     axioms_seen = []
-    for i, t in enumerate(theorems):
-        if i < len(blocks) and blocks[i].startswith("Closed under"):
-            res["theorems"].append((t, "closed"))
-            res["discharged"] += 1
-        elif i < len(blocks):
-            ax = re.findall(r"^(\S+)\s*:", blocks[i], re.M)
-            bad = [a for a in ax if a not in ALLOWED_AXIOMS and a != "Axioms"]
-            axioms_seen += ax
-            if bad:
-                res["theorems"].append((t, "axioms:" + ",".join(bad)))
-            else:
-                res["theorems"].append((t, "axioms-allowed:" + ",".join(ax)))
+    for fn in res["files"]:
+        src = open(os.path.join(COQ, fn)).read()
+        theorems = re.findall(r"^\s*Theorem\s+(\w+)", src, re.M)
+        res["obligations"] += len(theorems)
+        ok_deps, out = coq_make([fn[:-2] + ".vo"])
+        if not ok_deps:
+            # which theorem / lemma broke: report coqc's message
+            res["theorems"] += [(t, "not-checked") for t in theorems]
+            res["error"] = out[-3000:]
+            res["output"] += out
+            continue
+        # recompile the property file itself to capture Print Assumptions
+        with Lock("coq"):
+            r = run(["timeout", str(timeout), "coqc", "-Q", ".", "K", fn], cwd=COQ)
+        res["output"] += r.stdout
+        if r.returncode != 0:
+            res["theorems"] += [(t, "not-checked") for t in theorems]
+            res["error"] = r.stdout[-3000:]
+            continue
+        # Print Assumptions blocks appear in order, one per theorem
+        blocks = re.split(r"(?=Closed under the global context|Axioms:)", r.stdout)
+        blocks = [b for b in blocks if b.startswith("Closed under") or b.startswith("Axioms:")]
+        for i, t in enumerate(theorems):
+            if i < len(blocks) and blocks[i].startswith("Closed under"):
+                res["theorems"].append((t, "closed"))
                 res["discharged"] += 1
-        else:
-            res["theorems"].append((t, "no-print-assumptions"))
+            elif i < len(blocks):
+                ax = re.findall(r"^(\S+)\s*:", blocks[i], re.M)
+                bad = [a for a in ax if a not in ALLOWED_AXIOMS and a != "Axioms"]
+                axioms_seen += ax
+                if bad:
+                    res["theorems"].append((t, "axioms:" + ",".join(bad)))
+                else:
+                    res["theorems"].append((t, "axioms-allowed:" + ",".join(ax)))
+                    res["discharged"] += 1
+            else:
+                res["theorems"].append((t, "no-print-assumptions"))
     res["axioms"] = sorted(set(axioms_seen))
     # forbidden constructs anywhere in the development
     bad = grep_forbidden()
